@@ -37,6 +37,7 @@ from mashumaro.core.meta.helpers import (
     get_function_arg_annotation,
     get_literal_values,
     get_type_var_default,
+    get_underlying_class,
     is_final,
     is_generic,
     is_literal,
@@ -197,10 +198,13 @@ class UnionUnpackerBuilder(AbstractUnpackerBuilder):
             unpacker_block = CodeLines()
             if isinstance(unpacker, TypeMatchEligibleExpression):
                 do_try = False
+                type_arg_name = spec.builder.ensure_object_imported(
+                    get_underlying_class(type_arg)
+                )
                 if type_match_statements > 1:
-                    condition = f"__value_type is {type_arg.__name__}"
+                    condition = f"__value_type is {type_arg_name}"
                 else:
-                    condition = f"type(value) is {type_arg.__name__}"
+                    condition = f"type(value) is {type_arg_name}"
                 if (condition, unpacker) in unpackers:  # pragma: no cover
                     # we shouldn't be here because condition is always unique
                     continue
